@@ -135,6 +135,20 @@ def _run_via(text: str, via: str, cwd: str, writer) -> None:
     if via == "string":
         prog.assemble_string_with_emitter(text, "t.s", writer if writer is not None else RecWriter())
         return
+    if via == "string_dump":
+        # with the symbol listing switched on (Program(dump_symbols=True) / x816 --dump-symbols): the listing is part of the work an input causes
+        import contextlib
+        import io
+
+        from a816.program import Program
+
+        try:
+            dprog = Program(dump_symbols=True)
+        except TypeError:
+            dprog = prog
+        with contextlib.redirect_stdout(io.StringIO()):
+            dprog.assemble_string_with_emitter(text, "t.s", RecWriter())
+        return
     # the file front end: the source is named by an absolute / relative path (the include search may depend on it)
     name = "main_c15.s"
     with open(os.path.join(cwd, name), "w", encoding="utf-8", newline="") as f:
@@ -249,6 +263,12 @@ FILE_TEXTS = [
     ".include 'cyc_a_c15.s'\n", ".db 1\n.include 'cyc3_a_c15.s'\n.db 2\n", ".include 'cyc_b_c15.s'\n.include 'cyc_a_c15.s'\n",
     ".include_ips 'cut1_c15.ips', 0\n", ".include_ips 'cut2_c15.ips', 0\n", ".include_ips 'cut3_c15.ips', 0x200\n", ".include_ips 'cut4_c15.ips', 0\n",
     ".include_ips 'cut5_c15.ips', 0\n", ".db 1\n.include_ips 'whole_c15.ips', 0\n.include_ips 'cut1_c15.ips', 0\n",
+    # strings with backslashes that protect no quote (a DOS path, a \\n written out of habit), a lone backslash, a doubled one
+    "*=0x008000\n.ascii 'C:\\GAME\\SAVE.DAT'\n", "*=0x008000\n.table 'tbl_c15.tbl'\n.text 'AB\\nBA'\n", ".ascii '\\'\n", ".ascii 'a\\\\'\n.db 1\n", ".ascii '\\x41\\t\\0'\n", ".text '\\'\n",
+    # identifiers longer than any listing column, plain and qualified
+    "*=0x008000\nplayer_sprite_animation_frame_counter_low_byte = 0x7e0100\nlda.l player_sprite_animation_frame_counter_low_byte\n",
+    "*=0x008000\n.scope engine_subsystem_for_sprites {\na_label_that_is_much_longer_than_thirty_two_characters:\nrts\n}\njsr.w engine_subsystem_for_sprites.a_label_that_is_much_longer_than_thirty_two_characters\n",
+    "*=0x008000\n" + "x" * 300 + ":\n.dw " + "x" * 300 + "\n",
     # files named through the parent directory (a binary kept beside or above the project), through . and through dir/..
     ".incbin '../up_c15.bin'\n", "*=0x008000\nlda.w up_c15_bin\n.incbin '../up_c15.bin'\nrts\n", ".incbin '../../up2_c15.bin'\n", ".incbin './exists_c15.s'\n", ".incbin 'sub_c15/../exists_c15.s'\n",
     ".incbin '..'\n", ".incbin '../'\n", ".include '../up_c15.s'\n", ".table '../up_c15.tbl'\n.text 'AB'\n", ".include_ips '../up_c15.ips', 0\n", ".incbin '.../x'\n", ".incbin '..up_c15.bin'\n",
@@ -382,7 +402,7 @@ def run_shard(shard: dict) -> Res:
                 toks = [rng.choice(ALPHABET + [".include", "'nofile_c15.s'", "'exists_c15.s'", "'sub/x.s'"]) for _ in range(rng.randint(2, 12))]
                 texts.append("".join(t + rng.choice(["", " ", " ", "\n"]) for t in toks))
             for text in texts:
-                for via in ("file_abs", "file_rel", "string"):
+                for via in ("file_abs", "file_rel", "string", "string_dump"):
                     run_text(res, text, "files", via)
             res.sample({"family": "files", "text": FILE_TEXTS[1]})
         elif shard["kind"] == "recursion":
@@ -398,6 +418,7 @@ def run_shard(shard: dict) -> Res:
                 g = Gen(rng, size=(8, 25), rom="low")
                 text = source(g.program()["prog"])
                 run_text(res, text, "valid")
+                run_text(res, text, "valid", "string_dump")
                 for cut in range(len(text)):
                     run_text(res, text[:cut], "truncate")
                 lines = text.split("\n")
